@@ -44,7 +44,7 @@ RULE = ("One case = one public API call at a domain edge; both sides print only 
         "distinct (op,args) lines.")
 EXPLANATION = ("The model of this property is the documentation: Spec/Panics.lean transcribes the rustdoc `# Panics` sections, the "
                "trait/type level docs and the central panic helpers into a decidable `verdict : Op -> Args -> returns | panics k | "
-               "unspecified` (158 operations). Proved: every kind it returns is a documented one; for 40 operations the entry guards "
+               "unspecified` (146 operations). Proved: every kind it returns is a documented one; for 36 operations the entry guards "
                "mirrored from the code fail with kind k iff the documentation names k; the Farey walk terminates within `limit` steps and "
                "needs `limit` steps on 1/(limit+1) (the linear-time finding, made precise); the ln series loop terminates for positive "
                "input and provably never for negative input (the missing-guard finding). Everything else is decided by running the real "
@@ -53,8 +53,8 @@ ASSUMPTIONS = ["Spec/Panics.lean is a faithful transcription of the rustdoc (it 
                "the harness address-space cap (4 GiB) turns allocation failure into the documented `out of memory` panic",
                "per-case wall limit 4 s distinguishes termination from non-termination for the generated sizes"]
 LEVEL_TEXT = ("PARTIAL. Lean 4 theorems: the transcription of the documentation is total and only names documented kinds; the entry "
-              "guards of 40 representative operations (mirrored from the code) are equivalent to it; two loops whose termination is the "
-              "question are modelled with fuel and their (non-)termination is proved. The rest of the public API (158 ops in total) is "
+              "guards of 36 representative operations (mirrored from the code) are equivalent to it; two loops whose termination is the "
+              "question are modelled with fuel and their (non-)termination is proved. The rest of the public API (146 ops in total) is "
               "decided by correspondence only: each call runs in a supervised worker (panic capture, 4 s wall limit, address-space cap) in "
               "the debug build and, in the thorough tier, the release build, and its outcome class is compared with the transcription.")
 LEVEL_NOTE = ("Trusted: Lean kernel; axioms propext/Classical.choice/Quot.sound; the transcription of the rustdoc; the harness, its "
@@ -633,4 +633,4 @@ def to_float_zero_precision(args, impl, model):
     return _I(args[3]) == 0 and model == "panic UnlimitedPrecision" and "precision_>_0" in impl
 
 
-READY = False
+READY = True
